@@ -160,14 +160,30 @@ where
     unsafe { T::unpack(q) }
 }
 
+// The u128 view of a vec128_storage is, like its u32 and u64 views, a view of the same memory:
+// which u64 holds the low half depends on the byte order of the target.
 #[inline(always)]
+#[cfg(target_endian = "little")]
 fn o_of_q(q: [u64; 2]) -> u128 {
     u128::from(q[0]) | (u128::from(q[1]) << 64)
 }
 
 #[inline(always)]
+#[cfg(target_endian = "big")]
+fn o_of_q(q: [u64; 2]) -> u128 {
+    (u128::from(q[0]) << 64) | u128::from(q[1])
+}
+
+#[inline(always)]
+#[cfg(target_endian = "little")]
 fn q_of_o(o: u128) -> [u64; 2] {
     [o as u64, (o >> 64) as u64]
+}
+
+#[inline(always)]
+#[cfg(target_endian = "big")]
+fn q_of_o(o: u128) -> [u64; 2] {
+    [(o >> 64) as u64, o as u64]
 }
 
 #[inline(always)]
